@@ -6,6 +6,7 @@ def showErr : Err → String
   | .unicodeEncodeError => "ERR UnicodeEncodeError"
   | .hierarchyRequestErr => "ERR HierarchyRequestErr"
   | .unsupported => "UNSUPPORTED"
+  | .fuel => "ERR OutOfFuel"
 
 def showStrE : Except Err Str → String
   | .ok s => "OK " ++ encCps s
